@@ -805,6 +805,9 @@ func c18NewWorld(r *RunCtx, hist int) (*c18World, error) {
 	w.accts = append(w.accts, victim)
 	vs := victim.String()
 	w.e.App.RnsKeeper.SetNames(w.e.Ctx, rnstypes.Names{Name: vs[:len(vs)-4], Tld: "jkl", Value: w.accts[3].String(), Expires: 1 << 40})
+	// a sixth account: a 32-byte (contract-sized) address whose bech32 text begins with the whole text of account 0's
+	// address, checksum included — inboxes are keyed by the owner's text, one inbox must not swallow the other
+	w.accts = append(w.accts, c18TwinOf(w.accts[0]))
 	w.setName("alice.jkl", w.accts[0].String())
 	w.setName("bob.jkl", strings.ToUpper(w.accts[1].String())) // a value in the other spelling still resolves
 	w.setName("carol.jkl", w.accts[2].String())
@@ -956,4 +959,34 @@ func c18AddressEndingIn(suffix string) sdk.AccAddress {
 			return a
 		}
 	}
+}
+
+// c18TwinOf: the 32-byte address whose bech32 spelling starts with the full spelling of a 20-byte address.
+func c18TwinOf(a sdk.AccAddress) sdk.AccAddress {
+	const charset = "qpzry9x8gf2tvdw0s3jn54khce6mua7l"
+	text := a.String()
+	data := text[strings.LastIndex(text, "1")+1:] // 32 data characters + 6 checksum characters
+	vals := []byte{}
+	for i := 0; i < len(data); i++ {
+		vals = append(vals, byte(strings.IndexByte(charset, data[i])))
+	}
+	for len(vals) < 52 { // 52 characters of 5 bits = 256 bits + 4 zero padding bits
+		vals = append(vals, 0)
+	}
+	out := []byte{}
+	acc, bits := 0, 0
+	for _, v := range vals {
+		acc = acc<<5 | int(v)
+		bits += 5
+		for bits >= 8 {
+			bits -= 8
+			out = append(out, byte(acc>>uint(bits)))
+			acc &= 1<<uint(bits) - 1
+		}
+	}
+	tw := sdk.AccAddress(out[:32])
+	if !strings.HasPrefix(tw.String(), text) {
+		panic("c18TwinOf: the twin's spelling does not start with the address")
+	}
+	return tw
 }
